@@ -87,6 +87,10 @@ def shards(plan, extra=()):
             out.append({'layer': 'order'})
         elif e == 'samples':
             out.append({'layer': 'samples'})
+        elif e in ('nest', 'nest10'):
+            # nest10: depths <= 10 only (for checks whose own observations - or the library's .text - grow fast with depth)
+            for i in range(8):
+                out.append({'layer': 'nest', 'i': i, 'k': 8, 'maxdepth': 10 if e == 'nest10' else 40})
     return out
 
 
@@ -117,6 +121,10 @@ def iter_docs(shard):
                 yield d
     elif layer == 'order':
         yield from order_docs()
+    elif layer == 'nest':
+        for j, d in enumerate(nest_docs(shard.get('maxdepth', 40))):
+            if j % shard.get('k', 1) == shard.get('i', 0):
+                yield d
     elif layer == 'samples':
         for path, text in sample_texts():
             yield text, None
@@ -289,6 +297,48 @@ def args_docs():
                               (('E', N.e, args, (('T', N.a),)),),
                               (('T', N.a), ('C', N.x, args, ()), ('T', N.o))):
                     yield gram.render(items), items
+
+
+# ---------------------------------------------------------------------------------------------
+# nest layer: one path, many levels (thresholds in the nesting depth)
+
+NEST_DEPTHS = (5, 6, 7, 8, 9, 10, 12, 16, 24, 40)
+
+
+def nest_docs(maxdepth=40):
+    """two container kinds alternating down to depths 5..40 around one text; every ordered pair of
+    {group, command with brace argument, command with bracket argument, environment, environment with argument,
+    item in a group}; a sibling text after every closer at the even levels"""
+    a = alpha('full')
+    N = a.N
+
+    def wrap(kind, inner, d):
+        tail = (('T', N.o),) if d % 2 == 0 else ()
+        if kind in ('e', 'e{', 'i') and inner[0][0] == 'G{':
+            inner = (('T', N.o),) + inner         # R2: a group directly after the head would attach to it
+        if kind == 'g':
+            return (('G{', inner),) + tail
+        if kind == 'c{':
+            return (('C', N.x, (('G{', inner),), ()),) + tail
+        if kind == 'c[':
+            return (('C', N.y, (('G[', inner),), ()),) + tail
+        if kind == 'e':
+            return (('E', N.e, (), inner),) + tail
+        if kind == 'e{':
+            return (('E', N.e, (('G{', (('T', N.b),)),), inner),) + tail
+        return (('G{', (('C', 'item', (), (('T', ' '),) + inner),)),) + tail
+    kinds = ['g', 'c{', 'c[', 'e', 'e{', 'i']
+    for depth in NEST_DEPTHS:
+        if depth > maxdepth:
+            continue
+        for ka in kinds:
+            for kb in kinds:
+                if depth > 12 and ka != kb and (kinds.index(ka) + kinds.index(kb)) % 2:
+                    continue                      # the deepest nests: half of the mixed pairs
+                items = (('T', N.a),)
+                for d in range(depth, 0, -1):
+                    items = wrap(ka if d % 2 else kb, items, d)
+                yield gram.render(items), items
 
 
 # ---------------------------------------------------------------------------------------------
